@@ -5,6 +5,21 @@ HERE = os.path.dirname(os.path.dirname(os.path.abspath(__file__)))
 
 # id -> (technique, level text, level note, design section)
 CHECKS = {
+ "C02": ("property-based testing: generated concurrent arrival histories under a virtual clock; existential window-partition witness (dynamic program) / span predicate over admission timestamps",
+         "Generated search over window type, limit, period (incl. float-unlucky values), timeout and bursts/gaps placed on window boundaries; the oracle only looks at when inner calls started and accepts every placement of windows the statement allows. Exploration.",
+         "Admissions exactly at a cut instant may belong to either window; whole-millisecond instants.", "5/C02"),
+ "C03": ("property-based testing: generated concurrent histories in the deterministic simulator; invariant over the event log ordered against observed state transitions",
+         "Generated search over breaker configs, caller groups on clones, poll orders, cancellations and force_open; checks that no inner entry follows an observed ->Open transition before the wait has elapsed, and that callers polled while open are answered at once (error or their own fallback value). Exploration.",
+         "State observation = transition listener events cross-checked with state_sync(); k+0.5 ms thresholds avoid ties.", "5/C03"),
+ "C04": ("model-based property testing: generated sequential histories compared step by step with a reference model (set of worlds) written from the statement",
+         "Generated search over configurations and histories up to 60/400 operations; after every operation all four state views must agree with the model and the inner service must be entered iff the model admits. Exploration.",
+         "Worlds cover what the statement leaves open (min-calls reading, force_open while open, force_closed while closed); k+0.5 ms durations avoid ties.", "5/C04"),
+ "C09": ("property-based testing: generated concurrent histories in the deterministic simulator; counting invariant per observed half-open period",
+         "Generated search with bursts of identical callers arriving while trials are in flight; trial entries (not counting abandoned ones) per half-open period never exceed the permitted number and surplus callers are rejected at once. Exploration.",
+         "A trial abandoned by drop/panic is not counted (it can never be recorded); single-threaded poll orders.", "5/C09"),
+ "C15": ("property-based testing: generated arrival histories under a virtual clock; validity predicates over arrival/admission/rejection instants and the inner call log",
+         "Generated search (same histories as C02) checking decision-by-deadline, exactly-once / never inner entry, immediate admission when a placement-independent sufficient condition for spare capacity holds, and the two-idle-periods rule. Exploration.",
+         "'Idle' = no event at all for two periods; 'spare capacity' via a sufficient condition valid for every window placement.", "5/C15"),
  "C01": ("property-based testing: generated concurrent histories on a hand-driven executor under a virtual clock; invariant oracle over the event history",
          "Generated search (proptest, shrinking, replay) over arrival/cancellation/poll-order histories; in-flight <= max checked at every inner entry and quiescent instant plus a final max+1 probe. Exploration, not proof: it reports how many histories were non-trivial.",
          "Trusts tokio's semaphore/timer and the harness executor; explores single-threaded poll orders and same-instant ties, not preemption inside a poll.", "5/C01"),
